@@ -606,7 +606,7 @@ Definition c17_check (g : tsg) (sg : pgraph) : bool :=
                           | _ => false
                           end) (pedges sg)
   && forallb (fun e => name_eqb (es e) (ed e) || p_adjacent sg (es e) (ed e)) (tedges g)
-  && nodup_by (fun p q => (name_eqb (fst p) (fst q) && name_eqb (snd p) (snd q))
-                          || (name_eqb (fst p) (snd q) && name_eqb (snd p) (fst q)))
-              (map (fun e => (ps e, pd e)) (pedges sg))
+  && nodup_by pair_eqb (map (fun e => (ps e, pd e)) (pedges sg))
+  && forallb (fun p => forallb (fun q => negb (name_eqb (ps p) (pd q) && name_eqb (pd p) (ps q)))
+                               (pedges sg)) (pedges sg)
   && meta_eqb (pgmeta sg) (tgmeta g).
